@@ -78,6 +78,18 @@ def _resolve_identifier_target(
     return identifier.value, resolved_scopes
 
 
+def _known_scopes(owner: NixExpression) -> tuple[Scope, ...]:
+    """Scope chain of *owner*, tolerating a `with` whose environment is not statically known.
+
+    `with pkgs; { ... }` with `pkgs` a function argument is the common package-file idiom:
+    the body is still the edit target, names resolve through the enclosing scopes only.
+    """
+    try:
+        return scopes_for_owner(owner)
+    except ResolutionError:
+        return ()
+
+
 def _resolve_target_set_from_expr(
     target: NixExpression,
     *,
@@ -128,7 +140,7 @@ def _resolve_target_set_from_expr(
             return None
 
     if scope_chain is None:
-        scope_chain = scopes_for_owner(target)
+        scope_chain = _known_scopes(target)
 
     match target:
         case Assertion():
@@ -152,8 +164,10 @@ def _resolve_target_set_from_expr(
             except ValueError as exc:
                 raise ValueError("Unexpected function output type") from exc
         case WithStatement():
-            body_scopes = scopes_for_owner(target) or scope_chain
-            attach_resolution_context(target.body, owner=target)
+            with_scopes = _known_scopes(target)
+            if with_scopes:
+                set_resolution_context(target.body, with_scopes)
+            body_scopes = with_scopes or scope_chain
             return _resolve_target_set_from_expr(
                 target.body,
                 scope_chain=body_scopes,
